@@ -23,7 +23,7 @@ import (
 	mempl "github.com/lianxiangcloud/linkchain/mempool"
 )
 
-var e2bound = flag.Int("c07-bound", -1, "E2: preemption bound (default 2)")
+var e2bound = flag.Int("c07-bound", -1, "E2: preemption bound for every scenario (default: 2; thorough repeats the core scenarios with 3)")
 
 func quietMempoolLoops() { mempl.VerifC07ParkLoopTickers(1000 * time.Hour) }
 
@@ -34,6 +34,17 @@ type e2scenario struct {
 	Add     []string // one AddTx thread each
 	Block   []string // the block whose CommitBlock runs concurrently (built and CheckBlock'ed before the threads start)
 	After   []string // submitted sequentially after all threads finished: each re-uses an input and must be refused
+	Bound   int      // preemption bound (0 = 2)
+}
+
+func (s e2scenario) bound() int {
+	if *e2bound >= 0 {
+		return *e2bound
+	}
+	if s.Bound > 0 {
+		return s.Bound
+	}
+	return 2
 }
 
 // K0 = key image of o0 (s1, s1x, s1m, s1a, kk, s12), K1 = key image of o1 (s2, s12).
@@ -61,6 +72,15 @@ func e2scenarios(quick bool) []e2scenario {
 			t.Name, t.Trie = "trie:"+t.Name, true
 			sc = append(sc, t)
 		}
+		// the four core scenarios once more with <= 3 preemptions (placed so that on a 16-core machine each gets a
+		// worker of its own)
+		var deep []e2scenario
+		for i := 0; i < 4; i++ {
+			t := sc[i]
+			t.Name, t.Bound = t.Name+" @3", 3
+			deep = append(deep, t)
+		}
+		sc = append(sc[:4], append(deep, sc[4:]...)...)
 	}
 	return sc
 }
@@ -152,7 +172,7 @@ func runE2Scenario(r *vk.Run, cat *catalogue, sc e2scenario, bound int) e2result
 				good, utxo, _, _, kimgs := w.poolView()
 				oc = append(oc, "pool="+strings.Join(append(good, utxo...), ","), fmt.Sprintf("kimgs=%d", kimgs))
 				if cl, w2 := w.reapProblems(m); cl != "" {
-					key, what = "mempool-offers-consumed-input:"+cl, fmt.Sprintf("after the race %v: %s", oc, w2)
+					key, what = "mempool-offers-consumed-input:"+orUnclassified(cl), fmt.Sprintf("after the race %v: %s", oc, w2)
 				}
 				if key == "" {
 					// a later submission that re-uses an input held by the chain or by the pool must be refused, or
@@ -161,7 +181,7 @@ func runE2Scenario(r *vk.Run, cat *catalogue, sc e2scenario, bound int) e2result
 						err := w.c.Mempool().AddTx("", cat.get(n).decode())
 						oc = append(oc, fmt.Sprintf("then %s:%v", n, err == nil))
 						if cl, w2 := w.reapProblems(m); cl != "" {
-							key, what = "mempool-offers-consumed-input:"+cl+":after-key-image-cache-reset", fmt.Sprintf("after the race %v: %s", oc, w2)
+							key, what = "mempool-offers-consumed-input:"+orUnclassified(cl), fmt.Sprintf("after the race %v: %s", oc, w2)
 							break
 						}
 					}
@@ -179,13 +199,6 @@ func runE2Scenario(r *vk.Run, cat *catalogue, sc e2scenario, bound int) e2result
 	return res
 }
 
-func e2Bound() int {
-	if *e2bound >= 0 {
-		return *e2bound
-	}
-	return 2
-}
-
 func e2Worker(r *vk.Run) {
 	scs := e2scenarios(r.Quick())
 	var cat *catalogue
@@ -193,7 +206,7 @@ func e2Worker(r *vk.Run) {
 		if cat == nil {
 			cat = buildCatalogue()
 		}
-		return runE2Scenario(r, cat, scs[i], e2Bound())
+		return runE2Scenario(r, cat, scs[i], scs[i].bound())
 	})
 }
 
@@ -207,7 +220,7 @@ func runE2(r *vk.Run, budget time.Duration) *e2stats {
 	st := &e2stats{outcomes: map[string]int{}}
 	scs := e2scenarios(r.Quick())
 	results := make([]*e2result, len(scs))
-	extra := []string{"--part", "e2", "--c07-bound", fmt.Sprint(e2Bound()), "--budget", budget.String()}
+	extra := []string{"--part", "e2", "--c07-bound", fmt.Sprint(*e2bound), "--budget", budget.String()}
 	done := r.RunIsolated(len(scs), vk.IsoOpts{CaseTimeout: budget + time.Minute, Workers: workers(), ExtraArgs: extra},
 		func(i int, raw json.RawMessage, fatal string) {
 			if fatal != "" {
@@ -241,9 +254,9 @@ func runE2(r *vk.Run, budget time.Duration) *e2stats {
 		for _, v := range res.Viol {
 			nviol++
 			r.Violation(v.Key, fmt.Sprintf("scenario %s: %s", scs[i].Name, v.What), map[string]interface{}{"engine": "E2", "scenario": scs[i].Name, "schedule_thread_ids": v.Trace,
-				"threads": append(append([]string{}, scs[i].Add...), "CommitBlock"+fmt.Sprint(scs[i].Block)), "bound": e2Bound()})
+				"threads": append(append([]string{}, scs[i].Add...), "CommitBlock"+fmt.Sprint(scs[i].Block)), "bound": scs[i].bound()})
 		}
-		per = append(per, map[string]interface{}{"scenario": scs[i].Name, "preemption_bound": e2Bound(), "schedules": res.Executions, "choice_points": res.Points,
+		per = append(per, map[string]interface{}{"scenario": scs[i].Name, "preemption_bound": scs[i].bound(), "schedules": res.Executions, "choice_points": res.Points,
 			"by_preemptions": res.ByCost, "outcomes": ocs})
 		fmt.Printf("E2 %-45s schedules=%d by-preemptions=%v distinct-outcomes=%d\n", scs[i].Name, res.Executions, res.ByCost, len(res.Outcomes))
 	}
